@@ -54,7 +54,8 @@ def check_role_feas(prog: Program, res: Result) -> None:
                 "graphs whose colourings agree atom-wise compare equal "
                 "although different bonds are formed and broken")
         return
-    fi = prog.fn("algorithms.isomorphism:_bond_change_feasibility")
+    from ..iso import canon_iso
+    fi = canon_iso(prog, "_bond_change_feasibility")
     u, v = fi.params()[:2]
     t = utext(fi.node)
     def req(cond, key, msg):
